@@ -114,23 +114,38 @@ def qNode (d : Dist Int) (fs : Option P1 × Option P1) (dir : QDir) : T4 :=
 def sDir (B r c : Int) : SDir :=
   if c = 0 then .w else if r = c then .n else if r = B then .s else .bulk
 
-/-- direction and Pauli pair of the qubit node whose first site is `(r, c)`; `f1` = operator on `(r, c)`, `f2` = operator
-    on `(r + 1, c)` or `None` (the `if` chain of `create_tn`) -/
-def qDirFs (B r c : Int) (f1 : P1) (f2 : Option P1) : QDir × (Option P1 × Option P1) :=
+/-- direction of the qubit node whose first site is `(r, c)` (the `if` chain of `create_tn`) -/
+def qDir (B r c : Int) : QDir :=
   if c = 0 then
-    if r = 0 then (.nw, (some f1, f2))
-    else if r = B then (.sw, (some f1, none))
-    else (.w, (some f1, f2))
+    if r = 0 then .nw else if r = B then .sw else .w
   else if r = c then
-    if c = B then (.e, (some f1, none))
-    else if c % 3 = 2 then (.ne, (none, some f1))
-    else (.n, (some f1, f2))
-  else if r = B - 1 then (.s, (some f1, f2))
-  else if r = B then (.se, (some f1, none))
-  else (.bulk, (some f1, f2))
+    if c = B then .e else if c % 3 = 2 then .ne else .n
+  else if r = B - 1 then .s
+  else if r = B then .se
+  else .bulk
+
+/-- the Pauli pair `create_tn` passes to `create_q_node` in the branch of direction `dir`; `f1` = operator on the first
+    site `(r, c)` of the node, `f2` = operator on `(r + 1, c)` or `None` -/
+def qFs (dir : QDir) (f1 : P1) (f2 : Option P1) : Option P1 × Option P1 :=
+  match dir with
+  | .nw => (some f1, f2)
+  | .sw => (some f1, none)
+  | .w => (some f1, f2)
+  | .e => (some f1, none)
+  | .ne => (none, some f1)
+  | .n => (some f1, f2)
+  | .s => (some f1, f2)
+  | .se => (some f1, none)
+  | .bulk => (some f1, f2)
+
+/-- `f2` of `create_tn`: the operator on `(r + 1, c)` if that index is in bounds and a site, else `None` -/
+def f2At (L : Int) (sample : BVec) (r c : Int) : Option P1 :=
+  if Color666.inBounds L (r + 1) c && Color666.isSite (r + 1) c then some (Color666.operatorAt L sample (r + 1) c)
+  else none
 
 /-- what `create_tn` puts into network cell `(i, c)`: `none` = the cell stays `None`; otherwise `inl dir` = stabilizer
-    node, `inr (dir, fs)` = qubit node -/
+    node, `inr (dir, fs)` = qubit node.  In a qubit cell the node starts at the upper index `(3i+c)/2` when that is inside
+    the lattice, else at the lower one (top of a column with `c % 3 = 2`). -/
 def cellKind (L : Int) (sample : BVec) (i c : Nat) : Option (SDir ⊕ (QDir × (Option P1 × Option P1))) :=
   let B := Color666.bound L
   let s : Int := 3 * (i : Int) + (c : Int)
@@ -139,16 +154,9 @@ def cellKind (L : Int) (sample : BVec) (i c : Nat) : Option (SDir ⊕ (QDir × (
     if (c : Int) ≤ r ∧ r ≤ B then some (.inl (sDir B r c)) else none
   else
     let up := s / 2
-    let lo := up + 1
-    if (c : Int) ≤ up ∧ up ≤ B then
-      -- first site of the node is the upper one; `f2` as `create_tn` computes it
-      let f2 := if Color666.inBounds L lo c && Color666.isSite lo c then some (Color666.operatorAt L sample lo c) else none
-      some (.inr (qDirFs B up c (Color666.operatorAt L sample up c) f2))
-    else if (c : Int) ≤ lo ∧ lo ≤ B then
-      -- the upper index is outside the lattice: the node starts at the lower site, whose successor is a plaquette
-      let f2 := if Color666.inBounds L (lo + 1) c && Color666.isSite (lo + 1) c
-        then some (Color666.operatorAt L sample (lo + 1) c) else none
-      some (.inr (qDirFs B lo c (Color666.operatorAt L sample lo c) f2))
+    let r1 := if (c : Int) ≤ up then up else up + 1
+    if (c : Int) ≤ r1 ∧ r1 ≤ B then
+      some (.inr (qDir B r1 c, qFs (qDir B r1 c) (Color666.operatorAt L sample r1 c) (f2At L sample r1 c)))
     else none
 
 /-- the tensor of network cell `(i, c)` -/
